@@ -25,7 +25,7 @@ ASSUMPTIONS = [
     "after save_load the old module objects are stale handles that still belong to the discarded project object",
 ]
 REQUIRED_LABELS = {
-    "quick": ["gap_filled", "refused_module", "refused_pattern", "reattach_own", "attach_after_save_load", "note_mod_set", "note_mod_none", "interior_gap", "iadd_list", "attach_origin_synth_file", "attach_origin_clone", "attach_origin_clone_of_attached", "iadd_nested", "iadd_nested_into_gaps", "project_with_more_than_255_modules", "attach_origin_ctor_parent_kw"],
+    "quick": ["gap_filled", "refused_module", "refused_pattern", "reattach_own", "attach_after_save_load", "note_mod_set", "note_mod_none", "interior_gap", "iadd_list", "attach_origin_synth_file", "attach_origin_clone", "attach_origin_clone_of_attached", "iadd_nested", "iadd_nested_into_gaps", "project_with_more_than_255_modules", "attach_origin_ctor_parent_kw", "module_flags_assigned"],
     "thorough": ["gap_filled", "refused_module", "refused_pattern", "reattach_own", "attach_after_save_load", "note_mod_set", "note_mod_none", "interior_gap", "iadd_list", "note_mod_unattached_refused", "attach_origin_synth_file", "attach_origin_clone", "attach_origin_clone_of_attached"],
 }
 TYPES = ["Amplifier", "Generator", "Filter", "MultiSynth", "Echo"]
@@ -50,7 +50,7 @@ def history(draw, max_steps, big=False):
     k = draw(st.integers(1, max_steps))
     P = st.integers(0, nproj - 1)
     sel = st.integers(0, 40)  # resolved modulo what exists at run time
-    kinds = ["new", "new", "attach_fresh", "attach_own", "attach_foreign", "attach_none", "iadd_module", "iadd_list", "iadd_nested", "iadd_pattern", "iadd_clone", "attach_pattern", "attach_pattern_owned", "attach_pattern_none", "note_set_module", "note_set_mod", "note_set_mod_unattached", "save_load", "blank_reload"]
+    kinds = ["new", "new", "attach_fresh", "attach_own", "attach_foreign", "attach_none", "iadd_module", "iadd_list", "iadd_nested", "iadd_pattern", "iadd_clone", "attach_pattern", "attach_pattern_owned", "attach_pattern_none", "note_set_module", "note_set_mod", "note_set_mod_unattached", "save_load", "blank_reload", "set_flags"]
     for _ in range(k):
         kind = draw(st.sampled_from(kinds))
         op = [kind, draw(P)]
@@ -73,6 +73,9 @@ def history(draw, max_steps, big=False):
             op += [draw(sel), draw(sel)]
         elif kind == "blank_reload":
             op.append(draw(st.lists(sel, min_size=1, max_size=3)))
+        elif kind == "set_flags":
+            # the flags word of an attached module is a plain public field (mute / solo / bypass bits ...)
+            op += [draw(sel), draw(st.sampled_from([0, 0x80, 0x100, 0x4000, 0x49, 0x48, 0xFFFFFFFE, 2, 0x51 & ~1]))]
         ops.append(op)
     h = {"projects": nproj, "ops": ops}
     if big:
@@ -364,6 +367,11 @@ def run_history(ctx, h):
                 labels.add("note_mod_unattached_refused")
                 if not isinstance(err, ModuleOwnershipError) or n.module != old:
                     raise PropertyViolation("C14.note_mod.unattached", "note.mod = unattached module: err=%r, module %d -> %d" % (err, old, n.module))
+        elif kind == "set_flags":
+            own = [u for u in w.slots[pi] if u is not None]
+            target = w.objs[own[op[2] % len(own)]]
+            target.flags = op[3]
+            labels.add("module_flags_assigned")
         elif kind in ("save_load", "blank_reload"):
             data = p.read()
             if kind == "blank_reload":
